@@ -5,10 +5,13 @@ use crate::solvers::{
 };
 use crate::{
     float_eq,
-    math::{float_ge, float_gt, float_le, float_lt},
+    math::{float_ge, float_gt_precision, float_le, float_lt},
 };
 use core::fmt;
 use std::fmt::Display;
+
+/// Decimal digits of the tolerance that decides whether a pivot-column entry is positive.
+const PIVOT_PRECISION: u8 = 9;
 
 #[derive(Debug, Clone)]
 #[cfg_attr(target_arch = "wasm32", wasm_bindgen)]
@@ -250,7 +253,10 @@ impl Tableau {
             .a
             .iter()
             .enumerate()
-            .filter(|(_, a)| float_gt(a[h], 0.0))
+            // which rows limit the entering variable is decided with a much finer tolerance than
+            // the 1e-5 used to compare values: an entry of 0.000008 still limits a variable that
+            // can grow to 250000, while rounding noise (1e-16) must not become a pivot
+            .filter(|(_, a)| float_gt_precision(a[h], 0.0, PIVOT_PRECISION))
             .map(|(i, a)| (i, self.b[i] / a[h]));
         let basis = &self.in_basis;
         match valid.next() {
